@@ -388,5 +388,9 @@ def oracle(case):
         store.append(r)
     return None
 
+def shrink(case):
+    import vf
+    return vf.shrink_list(case, 'ops', oracle)
+
 def finding_key(case, msg):
     return 'C17:' + msg.split(':')[0]
